@@ -612,11 +612,27 @@ def rb1(proj, rep):
     m = fi.module
     rep.touch(m)
     n = 0
+    # package functions that divide their first parameter by its bare norm (0/0 at the origin)
+    partial = set()
+    for g in proj.iter_functions():
+        if g.module is not m or not g.all_params:
+            continue
+        p0 = g.all_params[0]
+        for d in ast.walk(g.node):
+            if isinstance(d, ast.BinOp) and isinstance(d.op, ast.Div) and isinstance(d.left, ast.Name) and d.left.id == p0 and isinstance(d.right, ast.Call) \
+                    and ast.unparse(d.right.func).endswith('linalg.norm') and d.right.args and ast.unparse(d.right.args[0]) == p0:
+                partial.add(g.node.name)
     for st in ast.walk(fi.node):
         if not (isinstance(st, ast.Assign) and isinstance(st.targets[0], ast.Name) and st.targets[0].id == 'ret'
                 and isinstance(st.value, ast.BinOp) and isinstance(st.value.op, (ast.Mult, ast.Div))):
             continue
         v = st.value
+        hit = next((c for c in ast.walk(v) if isinstance(c, ast.Call) and isinstance(c.func, ast.Name) and c.func.id in partial and c.args and ast.unparse(c.args[0]) == 'theta'), None)
+        if hit is not None:
+            n += 1
+            rep.violation('RB1', f'{fi.qual}[line {st.lineno - fi.node.lineno}]', f'`{ast.unparse(st)[:80]}`: {hit.func.id} divides theta by its bare norm, so the ball map is 0/0 (nan) at '
+                          f'theta = 0, the centre of the ball; the map must be total on R^n', m, st)
+            continue
         if not any(isinstance(x, ast.Name) and x.id == 'theta' for x in ast.walk(v)):
             continue
         # find the norm variable: a name assigned from (torch.)linalg.norm(theta, ...)
